@@ -88,9 +88,10 @@ Proof.
   { intros cs. unfold Skel.Emit.cols_texts. rewrite !in_flat_map. intros [c0 [Hc H0]]. exists c0. split; [exact Hc|now apply I]. }
   assert (S : forall sc, In s (Skel.Emit.sec_texts Mso sc) -> In s (Skel.Emit.sec_texts Std sc)).
   { intros sc. destruct sc as [cs|gs]; cbn [Skel.Emit.sec_texts]; [apply C|]. rewrite !in_flat_map. intros [g [Hg H0]]. exists g. split; [exact Hg|now apply C]. }
-  destruct bl as [sc|sc|ss|ks|ts]; cbn [Skel.Emit.block_texts] in *; try (now apply S); try (now apply R); try assumption.
-  rewrite in_flat_map in *. destruct H as [wi [Hwi H0]]. exists wi. split; [exact Hwi|].
-  destruct wi as [sc|ts]; cbn [Skel.Emit.witem_texts] in *; [now apply S|assumption].
+  assert (W : forall ws, In s (flat_map (Skel.Emit.witem_texts Mso) ws) -> In s (flat_map (Skel.Emit.witem_texts Std) ws)).
+  { intros ws. rewrite !in_flat_map. intros [wi [Hwi H0]]. exists wi. split; [exact Hwi|].
+    destruct wi as [sc|ts]; cbn [Skel.Emit.witem_texts] in *; [now apply S|assumption]. }
+  destruct bl as [sc|sc|ss|ss|ks|ts]; cbn [Skel.Emit.block_texts] in *; try (now apply S); try (now apply R); try (now apply W); try assumption.
 Qed.
 
 Print Assumptions C04_texts_compose.
